@@ -97,11 +97,16 @@ def magnitude_op(spec):
     op = C.bl_op(blocks, flags)
     op["fmt"] = "bl"
     op["desc"] = {"split": "none", "crit": "gas", "rules": True, "push0": True, "backend": "-greedy"}
-    # 5 short blocks per CPU second and 192 MiB on top of what the worker maps already: about 50x what these runs
-    # need, and far below 2^28 bytes times a few copies
-    op["cpu_s"] = 10 + len(blocks) // 5
-    op["as_extra"] = 192 << 20
+    # memory: the peak of the bytes allocated during the run is measured (tracemalloc: deterministic) and must stay below
+    # MAG_MEM; the address space may grow by 128 MiB over what the worker maps, so that an allocation proportional to a
+    # constant fails fast instead of being served.  CPU: 120 s for ~40 three-instruction blocks (normal: < 1 s)
+    op["cpu_s"] = 120
+    op["as_extra"] = 128 << 20
+    op["trace_mem"] = True
     return op
+
+
+MAG_MEM = 32 << 20
 
 
 def build_ops(spec):
@@ -218,6 +223,13 @@ def check(spec):
             res["exc"]["type"], res["exc"]["msg"], " ".join(op["argv"][1:]), list(op["files"].values())[0][:400]), "replay": rp}]
     if res["exit"] not in (None, 0):
         return summ, [{"class": ["exit", str(res["exit"])], "detail": "exit status %r" % res["exit"], "replay": rp}]
+    if op.get("trace_mem"):
+        summ["probes"]["magnitude_sweep_peak_kib_sum"] = res.get("mem_peak", 0) >> 10
+        if res.get("mem_peak", 0) > MAG_MEM:
+            return summ, [{"class": ["limit", "mem", "magnitude-sweep", op["desc"]["backend"]],
+                           "detail": "peak of %d MiB allocated for %d three-instruction blocks (budget %d MiB) | argv %s | input %s" % (
+                               res["mem_peak"] >> 20, len(names), MAG_MEM >> 20, " ".join(op["argv"][1:]), list(op["files"].values())[0][:300]),
+                           "replay": rp}]
     if "-backend" not in op["argv"] and C.output_path(op) not in res["files"]:
         return summ, [{"class": ["no-output"], "detail": "no output file | argv %s" % " ".join(op["argv"][1:]), "replay": rp}]
     contained = res["stdout"].count("Comparison failed, so initial block is kept")
